@@ -214,14 +214,14 @@ theorem meetFallback_ok (rf : Nat) {T : Table} {a b never : Nat} (ha : FO T a) (
     | false =>
       refine MeetOk.never hfo (fun v hwf hboth => ?_)
       unfold typesOverlap at ho
-      cases hc : checkRel T .any rf [] [] a b with
+      cases hc : checkRel T .any rf [] {} a b with
       | none => simp [hc] at ho
       | some p =>
         obtain ⟨r, asm'⟩ := p
         rw [hc] at ho
         simp only [Option.map_some, Option.some.injEq] at ho
         subst ho
-        exact checkRel_any_bad rf [] [] a b asm' hc ha hb [] [] v hwf hboth
+        exact checkRel_any_bad rf [] {} a b asm' hc ha hb [] [] v hwf hboth
 
 /-- positionwise related value fields force equal labels -/
 theorem labelsDiffer_false_of_rel {P Q : Nat → V → Prop} :
